@@ -13,7 +13,7 @@ and application messages of every member are decrypted by every other member."""
 import json
 
 from .common import *
-from .histlib import HistGen, run_scripts, block_join_history
+from .histlib import HistGen, run_scripts, block_join_history, double_update_history
 
 FIELDS = ("ctx", "tree_bytes", "auth", "exp", "cth", "tree_hash", "ext")
 
@@ -313,6 +313,30 @@ def main(run, args):
         provs = [["openssl"], ["rustcrypto"], ["awslc"], ["openssl", "awslc", "rustcrypto"]][i % 4]
         g, marks = block_join_history(rng, i, f"c01-block-{i}", quick, suite=suite, providers=provs)
         items.append((g.script(), {"marks": marks, "kinds": {"block_join": 1}, "talk": [], "final_members": list(g.in_group), "suite": suite, "providers": provs}))
+    # a member with two Update proposals in flight; the commit carries the first, the second or one of both
+    for i in range(6 if quick else 36):
+        suite = [1, 2, 3][i % 3]
+        provs = [["openssl"], ["rustcrypto"], ["awslc"], ["openssl", "awslc", "rustcrypto"]][i % 4]
+        g, marks = double_update_history(rng, i, f"c01-dupd-{i}", quick, suite=suite, providers=provs)
+        items.append((g.script(), {"marks": marks, "kinds": {"double_update": 1}, "talk": [], "final_members": list(g.in_group), "suite": suite, "providers": provs}))
+    # the committer rotates its signature key in the very commit that adds members: the joiners verify the
+    # GroupInfo of the new epoch against the committer's NEW leaf and must reach the members' state
+    for i in range(4 if quick else 24):
+        suite = [1, 2, 3][i % 3]
+        provs = [["openssl"], ["rustcrypto"], ["awslc"], ["openssl", "awslc", "rustcrypto"]][i % 4]
+        n = rng.choice([2, 3, 5])
+        g = HistGen(rng, n_pool=n + 3, name=f"c01-rotadd-{i}", suite=suite, providers=provs)
+        g.start()
+        marks = []
+        g.round(app=False, n_props=0, by_value_adds=n - 1, by_value_removes=0, path_required=True, echo=False)
+        marks.append((len(g.ops) - 1, g.epoch))
+        g.round_explicit(rng.choice(g.in_group), n_adds=1 + rng.below(2), remove_names=[], tree_ext=rng.chance(1, 2), new_id=True)
+        marks.append((len(g.ops) - 1, g.epoch))
+        g.round_explicit(g.in_group[-1], n_adds=0, remove_names=[])
+        marks.append((len(g.ops) - 1, g.epoch))
+        g.round_explicit(rng.choice(g.in_group), n_adds=0, remove_names=[], new_id=True)
+        marks.append((len(g.ops) - 1, g.epoch))
+        items.append((g.script(), {"marks": marks, "kinds": {"rotate_and_add": 1}, "talk": [], "final_members": list(g.in_group), "suite": suite, "providers": provs}))
     recs = run_scripts([x[0] for x in items], timeout=3000)
     failing, stats = judge(items, recs)
     run.obligation("all members agree after every commit of every history; epoch +1; all-to-all decryption", not failing and stats["member_comparisons"] > 0)
